@@ -43,6 +43,19 @@ func vpCatalogue(k int) {
 		vpOK(zzvp.Run("branch", "dev"))
 		vpOK(zzvp.Run("branch", "-r", "trunk"))
 		vpOK(zzvp.Run("switch", "dev"))
+	case 8: // a name that was a file in the first commit and is a directory in the second (and the reverse)
+		vpInitRepo()
+		zzvp.WriteFile(w+"/a", []byte("1"))
+		zzvp.WriteFile(w+"/d/b", []byte("2"))
+		vpOK(zzvp.Run("add", "a", "d"))
+		vpOK(zzvp.Run("commit", "-m", "c1"))
+		vpOK(zzvp.Run("rm", "a"))
+		vpOK(zzvp.Run("rm", "d"))
+		zzvp.RemoveAll(w + "/d")
+		zzvp.WriteFile(w+"/a/b/c", []byte("3"))
+		zzvp.WriteFile(w+"/d", []byte("4"))
+		vpOK(zzvp.Run("add", "a", "d"))
+		vpOK(zzvp.Run("commit", "-m", "c2"))
 	case 6: // identity never configured
 		vpOK(zzvp.Run("init"))
 		zzvp.WriteFile(w+"/a", []byte("1"))
@@ -63,10 +76,10 @@ func vpFreeArg(name string, maxLen int) string {
 
 // VP_C18_AnyCmd: every sub-command, flag combination and argument list ends with status 0 or 1; refusals change nothing.
 func VP_C18_AnyCmd() {
-	// the states explored are the set bits of "statemask" (default: all eight)
-	mask := zzvp.Param("statemask", 255)
+	// the states explored are the set bits of "statemask" (default: all nine)
+	mask := zzvp.Param("statemask", 511)
 	var states []int
-	for i := 0; i < 8; i++ {
+	for i := 0; i < 9; i++ {
 		if mask&(1<<i) != 0 {
 			states = append(states, i)
 		}
